@@ -43,11 +43,11 @@ Proof. exact mask_strided_eq. Qed.
 Print Assumptions mask_strided_eq_bytewise.
 
 (* decode after encode, through the staged decoder: a frame emitted by the
-   opposite role and admitted by the size limits produces exactly the effect of
+   opposite role and letin by the size limits produces exactly the effect of
    ws_read_frame_cb on (opcode, FIN, unmasked payload) *)
 Theorem ws_frame_roundtrip : forall cfg s key op final payload,
   w_stage s = SHead -> op < 128 -> length key = 4%nat -> N.of_nat (length payload) < 2 ^ 64 ->
-  frame_admitted cfg s op (N.of_nat (length payload)) ->
+  frame_letin cfg s op (N.of_nat (length payload)) ->
   ws_feed cfg (mkD s []) (ws_encode (negb (c_server cfg)) key op final payload) =
     let '(s1, e1) := ws_frame_cb cfg s op final payload in (mkD s1 [], e1).
 Proof. exact ws_feed_frame. Qed.
@@ -228,10 +228,10 @@ Print Assumptions ws_recvmax_control_holds.
    ping/pong frames (<= 125 bytes) anywhere, also inside messages.  Its
    encoding by the opposite role, cut into pieces in any way, makes the
    decoder deliver exactly the concatenations of the data frames of each
-   message, and leaves it in its initial state.  [admitted_along]: every frame
+   message, and leaves it in its initial state.  [letin_along]: every frame
    passes the configured size limits (see ws_limits_unlimited below). *)
 Theorem ws_reassembly_exact : forall cfg frs ms keys,
-  c_isstream cfg = false -> msg_seq cfg frs ms -> frames_encodable keys frs -> admitted_along cfg ws_init frs ->
+  c_isstream cfg = false -> msg_seq cfg frs ms -> frames_encodable keys frs -> letin_along cfg ws_init frs ->
   forall p rest, concat (p :: rest) = ws_encode_frames (negb (c_server cfg)) keys frs ->
   let '(d, e) := ws_feed_all cfg ws_dinit (p :: rest) in deliveries e = ms /\ d = ws_dinit.
 Proof. exact ws_reassembly_bytes. Qed.
@@ -252,7 +252,7 @@ Theorem ws_fragmentation_roundtrip : forall cfg send_text fragsize data keys,
   N.of_nat (length data) < 2 ^ 64 ->
   let frs := ws_send_frames false send_text fragsize data in
   (length frs <= length keys)%nat -> Forall (fun k => length k = 4%nat) keys ->
-  admitted_along cfg ws_init frs ->
+  letin_along cfg ws_init frs ->
   forall p rest, concat (p :: rest) = ws_encode_frames (negb (c_server cfg)) keys frs ->
   let '(d, e) := ws_feed_all cfg ws_dinit (p :: rest) in deliveries e = [data] /\ d = ws_dinit.
 Proof. exact ws_fragmentation_bytes. Qed.
@@ -275,16 +275,16 @@ Proof.
 Qed.
 Print Assumptions ws_fragment_shape_holds.
 
-(* without configured limits every frame the allocator can hold is admitted *)
+(* without configured limits every frame the allocator can hold is letin *)
 Theorem ws_limits_unlimited : forall cfg, c_maxframe cfg = 0 -> c_recvmax cfg = 0 -> forall frs s,
-  Forall (fun f => N.of_nat (length (fr_payload f)) <= c_allocmax cfg) frs -> admitted_along cfg s frs.
-Proof. exact admitted_unlimited. Qed.
+  Forall (fun f => N.of_nat (length (fr_payload f)) <= c_allocmax cfg) frs -> letin_along cfg s frs.
+Proof. exact letin_unlimited. Qed.
 Print Assumptions ws_limits_unlimited.
 
 (* ---------------------------------------------------------------- (e) *)
 (* a hex digit multiplies the size by 16 and adds its value exactly when that
    does not exceed SIZE_MAX (otherwise EMSGSIZE): no wrap is reachable; a
-   chunk is admitted only if size + 2 and total + size do not wrap and the total
+   chunk is letin only if size + 2 and total + size do not wrap and the total
    stays within maxsz; the total stays within maxsz along every run *)
 Theorem chunked_value_and_limits :
   (forall cl c d, hex_digit c = Some d -> d < 16 ->
@@ -315,7 +315,7 @@ Print Assumptions emit_well_formed.
 (* corollary: it is accepted by the decoder model of the opposite role *)
 Theorem emit_accepted_by_peer : forall cfg s key op final payload,
   w_stage s = SHead -> op < 128 -> length key = 4%nat -> N.of_nat (length payload) < 2 ^ 64 ->
-  frame_admitted cfg s op (N.of_nat (length payload)) ->
+  frame_letin cfg s op (N.of_nat (length payload)) ->
   fst (ws_feed cfg (mkD s []) (ws_encode (negb (c_server cfg)) key op final payload)) =
     mkD (fst (ws_frame_cb cfg s op final payload)) [].
 Proof.
@@ -451,7 +451,7 @@ Print Assumptions ws_dialer_limits_as_coded.
    configuration, and the decoder then delivers the payload *)
 Example frame_roundtrip_nonvacuous :
   let cfg := mkCfg true false DEF_MAXRXFRAME DEF_RECVMAX false (2 ^ 40) false in
-  frame_admitted cfg ws_init WS_BINARY 5 /\
+  frame_letin cfg ws_init WS_BINARY 5 /\
   snd (ws_feed cfg ws_dinit (ws_encode false [1; 2; 3; 4] WS_BINARY true [72; 101; 108; 108; 111])) =
     [EDeliver [72; 101; 108; 108; 111]].
 Proof. split; [repeat split|]; vm_compute; reflexivity. Qed.
@@ -461,7 +461,7 @@ Example reassembly_nonvacuous :
   let frs := [(WS_BINARY, false, [1]); (WS_PING, true, [9]); (WS_CONT, false, [2]); (WS_PONG, true, []);
               (WS_CONT, true, [3]); (WS_BINARY, true, [4; 5])] in
   msg_seq cfg frs [[1; 2; 3]; [4; 5]] /\ frames_encodable (repeat [7; 7; 7; 7] 6) frs /\
-  admitted_along cfg ws_init frs /\
+  letin_along cfg ws_init frs /\
   deliveries (snd (ws_feed cfg ws_dinit (ws_encode_frames false (repeat [7; 7; 7; 7] 6) frs))) = [[1; 2; 3]; [4; 5]].
 Proof.
   cbv zeta. split; [|split; [|split]].
@@ -471,7 +471,7 @@ Proof.
     + apply MT_ctl; [reflexivity|]. apply MT_cont. apply MT_ctl; [reflexivity|]. apply MT_last.
     + apply MS_single; [left; reflexivity|apply MS_nil].
   - split; [|split; [cbn; lia|repeat constructor]]. repeat constructor; cbn; lia.
-  - apply admitted_unlimited; try reflexivity. repeat constructor; cbn; lia.
+  - apply letin_unlimited; try reflexivity. repeat constructor; cbn; lia.
   - vm_compute. reflexivity.
 Qed.
 
